@@ -47,6 +47,7 @@ fn main() {
         threads: std::thread::available_parallelism().map(|n| n.get()).unwrap_or(4),
         replay: None,
         run_index: None,
+        first_run: 0,
         write_evidence: true,
         log_hashes: false,
         max_seconds: None,
@@ -98,6 +99,10 @@ fn main() {
                 args.write_evidence = false;
                 i += 1;
             }
+            "--first-run" => {
+                args.first_run = need(i).parse().unwrap_or_else(|_| usage());
+                i += 1;
+            }
             "--max-seconds" => {
                 args.max_seconds = Some(need(i).parse().unwrap_or_else(|_| usage()));
                 i += 1;
@@ -110,7 +115,13 @@ fn main() {
         i += 1;
     }
     let code = match cmd.as_str() {
-        "check" => runner::cmd_check(&args),
+        "check" => {
+            if std::env::var("AISSIM_CHILD").is_ok() {
+                runner::cmd_check(&args)
+            } else {
+                runner::supervise(&args, &argv)
+            }
+        }
         "selftest-determinism" => selftest::cmd_selftest(&args),
         "hashes" => selftest::cmd_hashes(&args),
         _ => usage(),
